@@ -37,7 +37,7 @@ def drive (body impl : String) : Verdict :=
   let bits := String.ofList ([seg.bottom - 1, seg.bottom, seg.top - 1, seg.top, 0, 18446744073709551615].map
     (fun sp => if inBounds [seg] sp then '1' else '0'))
   let rs := runSched cos sched
-  let mouts := [s!"bounds={bits}"] ++ rs.map showRes ++ ["alive"]
+  let mouts := [s!"bounds={bits}"] ++ rs.map showRes ++ ["alive cur=0"]
   let outs := splitTrim impl "|"
   let abn := (words impl).any (fun w => w == "ABORT" || w == "HANG")
   -- Spec on the implementation: the thread survives; faulting coroutines end in Err(one of the two
@@ -46,7 +46,8 @@ def drive (body impl : String) : Verdict :=
   let pairs := (rs.zip (resOuts ++ List.replicate (rs.length - resOuts.length) ""))
   let wildAt : List Bool := sched.map (fun c => wild.getD c false)
   let fails : List String :=
-    (if abn ∨ outs.getLast? != some "alive" then [s!"[thread-died] a fault inside a coroutine took the thread/process down: {impl.takeEnd 60}"] else []) ++
+    (if !abn ∧ outs.getLast? == some "alive cur=1" then [s!"[stale-current-suspender] after a coroutine died of a fault the resuming thread still has that coroutine's suspender as its current one (it believes it is inside a coroutine)"] else []) ++
+    (if abn ∨ !((outs.getLast?.getD "").startsWith "alive") then [s!"[thread-died] a fault inside a coroutine took the thread/process down: {impl.takeEnd 60}"] else []) ++
     (if outs.head? != some s!"bounds={bits}" then [s!"[bounds] stack_ptr_in_bounds at the segment boundaries: {outs.headD ""}, expected bounds={bits}"] else []) ++
     ((pairs.zip (wildAt ++ List.replicate (pairs.length - wildAt.length) false)).filterMap fun ((m, i), w) => match m with
       | some (.error _) => if w ∧ i == "Err(stack_overflow)" then
